@@ -132,6 +132,9 @@ def run_history(kind, mod, init, hist):
     """returns (error or None, canonical model state, transitions)"""
     by_top = (mod.W(body=mod.K(a=b'q')) if kind in ('sub', 'sub-proto') else (mod.W(a=b'q') if kind == 'embed' else mod.K(a=b'q')))
     by_tgt = by_top.body if kind in ('sub', 'sub-proto') else by_top
+    # a second bystander whose described field is PINNED: what happens to other packets of the class must not unpin it
+    pin_top = (mod.W(body=mod.K(length=6, a=b'q')) if kind in ('sub', 'sub-proto') else (mod.W(length=6, a=b'q') if kind == 'embed' else mod.K(length=6, a=b'q')))
+    pin_tgt = pin_top.body if kind in ('sub', 'sub-proto') else pin_top
     try:
         top, tgt, m = start(kind, mod, init)
     except Exception as e:
@@ -174,6 +177,8 @@ def run_history(kind, mod, init, hist):
                 return 'instances have a __dict__', m.canon(), trans
             if by_tgt.length != 1 or by_tgt.a != b'q' or by_top.pack() != encode(kind, 1, b'q'):
                 return 'after %r: a bystander packet of the class changed (length=%r a=%r)' % (op, by_tgt.length, by_tgt.a), m.canon(), trans
+            if op[0] in ('init', 'del_len', 'set_len', 'unpack') and (pin_tgt.length != 6 or pin_tgt.a != b'q' or pin_top.pack() != encode(kind, 6, b'q')):
+                return 'after %r: a bystander packet with an assigned length changed (length=%r a=%r)' % (op, pin_tgt.length, pin_tgt.a), m.canon(), trans
         except Exception as e:
             return 'after %r: raised %r' % (op, e), m.canon(), trans
     return None, m.canon(), trans
